@@ -10,6 +10,7 @@ from vlib.api import *
 from vlib import pelbuild as pb
 from vlib.stubs import World, Namespace, ARG_DEFAULTS, run_main
 from pel.peltool import peltool
+from harness.C09_isolation import _well_framed
 
 FUNCTIONS = ["peltool.main", "peltool.getFileList", "peltool.listOption", "peltool.extractAndSummarizePEL",
              "peltool.parsePELSummary", "peltool.printPELCount", "peltool.extractAllPELsData", "peltool.parsePEL",
@@ -29,7 +30,7 @@ BOUNDS = {"agreement": "directory of 3 logs: one with 12 symbolic variants (seve
                        "-E and the severity-group set per case",
           "summary": "one header / SRC field symbolic at a time (all values)",
           "order": "3 concrete + 1 symbolic-extension file names, --reverse and --extension symbolic, all three modes; "
-                   "getFileList alone with 3 (thorough) / 2 symbolic 3-character names: first character over {a b 0}, suffix over {.p .q bp}"}
+                   "getFileList alone with 3 (thorough) / 2 symbolic 3-character names: first character over {a b _}, suffix over {.p .q _p}"}
 ASSUMPTIONS = ["file system, print, argparse replaced by the in-memory world (E1, E2, E4); os.walk order is the list order "
                "given by the harness (getFileList sorts)", "JSON text replaced by the token (M7)"]
 OUTSIDE = ["directories with more than 4 files", "real os.walk ordering"]
@@ -96,7 +97,7 @@ def h_agree() -> bool:
     except Exception as e:
         return verdict(False, obs={"exception": repr(e)})
     n, lst, docs = _count(wn), _listed(wl), _displayed(wa)
-    conds = [sn == 0, sl == 0, sa == 0, n is not None, lst is not None]
+    conds = [sn == 0, sl == 0, sa == 0, n is not None, lst is not None, _well_framed(wa, "a")]
     if n is not None and lst is not None:
         eids_l = list(lst.keys())
         eids_a = [d["Private Header"]["Entry Id"] for d in docs]
@@ -167,7 +168,8 @@ def h_order() -> bool:
     last = "d_50000004.txt"
     if x == 1:
         last = "0_50000004.pel"
-    names = ["m_50000002.pel", "z_50000003.txt", "b_50000001.pel", last]       # deliberately unsorted walk order
+    # deliberately unsorted walk order; two names share the part before '_' (logs created in the same 1/100 s)
+    names = ["m_50000002.pel", "z_50000003.txt", "b_50000001.pel", last, "b_50000000.pel"]
     files = [(nm, pb.PEL(pb.SRC(), ph=dict(eid=int(nm.split("_")[1][:8], 16)))) for nm in names]
     opt = dict(reverse=rev, extension=ext, every_pel=True)
     try:
@@ -204,9 +206,9 @@ def h_filelist() -> bool:
     k = int(CASE[-1])
     names, first, suf = [], [], []
     for i in range(k):
-        c0 = sym_str("c%d" % i, 1, "ab0")
-        sx = sym_int("s%d" % i, 0, 2)                    # suffix: ".p" / ".q" / "bp" (no extension)
-        s1 = sym_ite(sx == 2, ord("b"), ord("."))
+        c0 = sym_str("c%d" % i, 1, "ab_")
+        sx = sym_int("s%d" % i, 0, 2)                    # suffix: ".p" / ".q" / "_p" (no extension)
+        s1 = sym_ite(sx == 2, ord("_"), ord("."))
         s2 = sym_ite(sx == 1, ord("q"), ord("p"))
         names.append(mkstr([ord(c0[0]), s1, s2]))
         first.append(ord(c0[0]))
